@@ -1216,13 +1216,19 @@ def run_xlsb_files(ctx, n, argc):
                                                                  _recs_arg(tables[-1] + [(0x0092, b"")])))
             ctx.count("xlsb:file:formulas_per_sheet:%d" % len(cells_model))
         tail = fg.xlsb_tail_records(xtis, payloads, links=links)
-        path = _write("e%d.xlsb" % k, fg.xlsb_bytes(bundle, sheet_cells, tail, rng, tables=tables))
-        calls = "names;" + ";".join("formula " + hx(s) for s in bundle)
+        # sheets without formula cells standing before another sheet may be CHART sheets: they keep their
+        # place in the sheet list the XTIs index (3-D references of the other sheets' formulas and of the
+        # names go across them), and are not asked for formulas
+        charts = [si for si in range(len(bundle) - 1) if not sheet_cells[si] and rng.random() < 0.6]
+        path = _write("e%d.xlsb" % k, fg.xlsb_bytes(bundle, sheet_cells, tail, rng, tables=tables, charts=charts))
+        if charts:
+            ctx.count("xlsb:file:chart_sheet_before_a_worksheet")
+        calls = "names;" + ";".join("formula " + hx(s) for si, s in enumerate(bundle) if si not in charts)
         line = "xb%d\topen\txlsb\t%s\t%s" % (k, path, calls)
         impl_lines.append(line)
         model_lines += mlines
         model_lines.append("xb%d_e\tfenv\txlsb\t%s\t-\t%s" % (k, names_arg(bundle), _recs_arg(tail)))
-        meta["xb%d" % k] = (line, fg.expected_names(exp_names), exp_sheets, known_sheets, ext, known_names)
+        meta["xb%d" % k] = (line, fg.expected_names(exp_names), exp_sheets, known_sheets, ext, known_names, charts)
         # a malformed sibling (implementation vs model only): a truncated BrtName, or an extern-sheet
         # count that runs into the bytes an earlier record left in the reader's buffer
         if nm and rng.random() < 0.25:
@@ -1249,7 +1255,7 @@ def run_xlsb_files(ctx, n, argc):
                               "xbm%d\tfenv\txlsb\t%s\t-\t%s" % (k, names_arg(bundle), _recs_arg(btail))))
     impl = ctx.run_impl(impl_lines + [b[1] for b in bad_lines])
     mod2 = ctx.run_model(model_lines + [b[2] for b in bad_lines])
-    for lid, (line, en, es, known, ext, known_names) in meta.items():
+    for lid, (line, en, es, known, ext, known_names, charts) in meta.items():
         env = mod2.get(lid + "_e", "")
         mnames = None
         if env.startswith("ok:") and "|" in env:
@@ -1264,7 +1270,7 @@ def run_xlsb_files(ctx, n, argc):
             if m != e[1]:
                 ctx.disagreements.append({"function": "formula_range (FormulaEnv model vs expansion of the generator)", "case": line,
                                           "impl": e[1], "model": m})
-        _check_book(ctx, "xlsb", line, impl.get(lid), en, [tuple(e) for e in es], known, model_names=mnames,
+        _check_book(ctx, "xlsb", line, impl.get(lid), en, [tuple(e) for si, e in enumerate(es) if si not in charts], known, model_names=mnames,
                     known_names=known_names)
     for lid, il, ml in bad_lines:
         i, m = impl.get(lid), mod2.get(lid, "")
